@@ -329,8 +329,22 @@ func check(c Case) vk.Verdict {
 	if err != nil {
 		return vk.Failf("%s: %v", ctx, err)
 	}
-	if d := m1.TotalAlloc - m0.TotalAlloc; d > 8<<20+256*uint64(len(raw)) {
-		return vk.Failf("%s: serving %d bytes allocated %d bytes", ctx, len(raw), d)
+	bound := 8<<20 + 256*uint64(len(raw))
+	for _, r := range c.Reqs {
+		for _, h := range r.Headers {
+			if strings.EqualFold(h[0], "Content-Encoding") {
+				// a compressed body may be decoded up to the configured body limit, by each of the handler's (about eight)
+				// accessors that look at the body; growing the buffer costs up to three times its final size
+				limit := configs[c.Config%nConfigs].BodyLimit
+				if limit <= 0 {
+					limit = fiber.DefaultBodyLimit
+				}
+				bound += 8 * 3 * uint64(limit)
+			}
+		}
+	}
+	if d := m1.TotalAlloc - m0.TotalAlloc; d > bound {
+		return vk.Failf("%s: serving %d bytes allocated %d bytes (bound %d)", ctx, len(raw), d, bound)
 	}
 	// responses can be attributed to requests up to (and including) the first request that is not well-formed: whatever
 	// follows it may be read by the server as further (garbage) requests
@@ -560,6 +574,8 @@ func genHelpers(t *rapid.T) []Helper {
 	return hs
 }
 
+var gzBomb = gz(make([]byte, 32<<20))
+
 func gz(b []byte) []byte {
 	var buf bytes.Buffer
 	zw := gzip.NewWriter(&buf)
@@ -615,6 +631,8 @@ func genReq(t *rapid.T) Req {
 			r.Body = gz([]byte("a=1&b=2"))
 			if rapid.Bool().Draw(t, "corruptgz") {
 				r.Body = r.Body[:len(r.Body)/2]
+			} else if rapid.IntRange(0, 15).Draw(t, "bomb") == 0 {
+				r.Body = gzBomb // 32 MiB of zeros in ~32 KiB: decoding must not cost memory out of proportion to what was sent
 			}
 		case 5:
 			r.Headers = append(r.Headers, [2]string{"Content-Type", "application/cbor"})
